@@ -5,7 +5,7 @@ pc.install(globals(), "C09", "C09", "fork stages",
     rule=("fork.Map / FMap (pure and Try-mode with failing elements), Filter, Partition, ForEach, Void x par in {1,2,3,4,7} x "
           "inputs shorter / equal / longer than par (distinct elements) x input capacities 0..2 x gated user functions whose "
           "completion order the harness decides (release moves) and ungated runs x random schedules from VERIF_SEED with and "
-          "without cancel, drained to completion. Distinct by full observed trace; non-trivial when a value was delivered or the run was cancelled"),
+          "without cancel, drained to completion. fork.Map/FMap in fail-fast mode with several failing elements (random and absent-consumer schedules), ForEach with a failing function. Distinct by full observed trace; non-trivial when a value was delivered or the run was cancelled"),
     claim={
         "text": "Theorems proved by the Coq kernel for every worker count, input, capacity, distribution of elements over workers and completion order: in every reachable state the taken elements are a permutation-partition of the consumed input (each applied exactly once) and each output is a permutation of the image of what was taken (nothing lost, duplicated, invented); no send on a closed channel / double close; outputs close only after every worker returned; on completion every output is exactly the multiset the sequential stage delivers. Fail-fast mode (Lift/LiftF/Pure) with failing elements: the plain send `exx <- err` never blocks when par <= cap(exx) (with a proved witness that a smaller capacity leaks a goroutine even after cancel), so on cancel or drain every worker returns and both outputs close, and at most par errors are ever produced. Tied to the code by trace acceptance of gated synctest runs.",
         "design_ref": "DESIGN.md 2.1, 3/C09",
